@@ -435,94 +435,160 @@ def exceptKeys : Option Value → Option (List Key)
   | some (.arr xs) => (Coll.toList xs).mapM fun v => Conv.bytesLossy v
   | some _ => none
 
-/-- `FunctionExpression::resolve` of each function on already evaluated argument slots. -/
-def model (E : Env) (F : Fn) (vs : Slots) : R Value :=
-  match F, vs with
-  | .string, [some v] => (match v with | .bytes _ => .ok v | _ => .err)
-  | .int, [some v] => (match v with | .int _ => .ok v | _ => .err)
-  | .float, [some v] => (match v with | .float _ => .ok v | _ => .err)
-  | .bool, [some v] => (match v with | .bool _ => .ok v | _ => .err)
-  | .array, [some v] => (match v with | .arr _ => .ok v | _ => .err)
-  | .object, [some v] => (match v with | .obj _ => .ok v | _ => .err)
-  | .timestamp, [some v] => (match v with | .ts _ => .ok v | _ => .err)
-  | .isString, [some v] => boolR (match v with | .bytes _ => true | _ => false)
-  | .isInteger, [some v] => boolR (match v with | .int _ => true | _ => false)
-  | .isFloat, [some v] => boolR (match v with | .float _ => true | _ => false)
-  | .isBoolean, [some v] => boolR (match v with | .bool _ => true | _ => false)
-  | .isNull, [some v] => boolR (match v with | .null => true | _ => false)
-  | .isArray, [some v] => boolR (match v with | .arr _ => true | _ => false)
-  | .isObject, [some v] => boolR (match v with | .obj _ => true | _ => false)
-  | .isTimestamp, [some v] => boolR (match v with | .ts _ => true | _ => false)
-  | .isRegex, [some v] => boolR (match v with | .regex _ => true | _ => false)
-  | .isNullish, [some v] => boolR (Coll.isNullish v)
-  | .isEmpty, [some v] =>
-    (match v with
-     | .obj m => boolR m.isEmpty
-     | .arr a => boolR a.isEmpty
-     | .bytes b => boolR b.isEmpty
-     | _ => .err)
-  | .length, [some v] => Coll.length v
-  | .strlen, [some v] => Str.strlen v
-  | .push, [some v, some x] =>
-    (match v with | .arr a => .ok (.arr (a.append (.cons x .nil))) | _ => .err)
-  | .pop, [some v] => (match v with | .arr a => .ok (.arr (popList a)) | _ => .err)
-  | .append, [some v, some w] =>
-    (match v, w with | .arr a, .arr b => .ok (.arr (a.append b)) | _, _ => .err)
-  | .toInt, [some v] => ofRes (Conv.Num.toInt v)
-  | .toFloat, [some v] => Round.toFloat E.parseF v
-  | .toBool, [some v] => toBool v
-  | .toString, [some v] => toStringV E v
-  | .upcase, [some v] => Str.upcaseV E.cm v
-  | .downcase, [some v] => Str.downcaseV E.cm v
-  | .stripWhitespace, [some v] => Str.stripWhitespace v
-  | .startsWith, [some v, some s, cs] => Str.startsWith E.cm v s cs
-  | .endsWith, [some v, some s, cs] => Str.endsWith E.cm v s cs
-  | .contains, [some v, some s, cs] => Str.contains E.cm v s cs
-  | .truncate, [some v, some l, sfx] => Str.truncate v l sfx
-  | .slice, [some v, some s, e] => Coll.slice v s e
-  | .split, [some v, some p, l] => splitV E v p l
-  | .join, [some v, sep] => Str.join v sep
-  | .abs, [some v] => ofRes (Conv.Num.abs v)
-  | .mod, [some v, some m] => ofArith (Arith.tryRem v m)
-  | .floor, [some v, p] => Round.roundFn .floor E.pow10 v p
-  | .ceil, [some v, p] => Round.roundFn .ceil E.pow10 v p
-  | .round, [some v, p] => Round.roundFn .round E.pow10 v p
-  | .formatInt, [some v, b] => ofRes (Conv.formatInt v (b.getD (.int 10)))
-  | .parseInt, [some v, b] => ofRes (Conv.parseInt v b)
-  | .parseFloat, [some v] => Round.parseFloat E.parseF v
-  | .encodeBase64, [some v, pad, cs] =>
-    (match v, pad.getD (.bool true), cs.getD (.bytes [115, 116, 97, 110, 100, 97, 114, 100]) with
-     | .bytes b, .bool p, .bytes c => ofOpt (Codec.Base64.encode b p c)
-     | _, _, _ => .err)
-  | .decodeBase64, [some v, cs] =>
-    (match v, cs.getD (.bytes [115, 116, 97, 110, 100, 97, 114, 100]) with
-     | .bytes b, .bytes c =>
-       (match Codec.Base64.decode b c with
-        | .ok r => .ok (.bytes r)
-        | _ => .err)
-     | _, _ => .err)
-  | .encodeBase16, [some v] =>
-    (match v with | .bytes b => .ok (.bytes (Codec.Base16.encode b)) | _ => .err)
-  | .decodeBase16, [some v] =>
-    (match v with | .bytes b => ofOpt (Codec.Base16.decode b) | _ => .err)
-  | .encodeJson, [some v, pretty] =>
-    (match pretty.getD (.bool false) with
-     | .bool p => .ok (.bytes (Json.encodeJson E.json p v))
-     | _ => .err)
-  | .keys, [some v] => Coll.keys v
-  | .values, [some v] => Coll.values v
-  | .flatten, [some v, sep, except] =>
-    (match exceptKeys except with
-     | some ks => ofRes (Conv.Flat.flatten v (sep.getD (.bytes [46])) ks)
-     | none => .err)
-  | .compact, [some v, r, n, s, o, a, nl] => Coll.compact v r n s o a nl
-  | .unique, [some v] => Coll.unique v
-  | .toEntries, [some v] => ofRes (Conv.toEntries v)
-  | .fromEntries, [some v] => ofRes (Conv.fromEntries v)
-  | .unflatten, [some v, sep, r] =>
-    ofRes (Conv.Flat.unflatten v (sep.getD (.bytes [46])) (r.getD (.bool true)))
-  | .merge, [some a, some b, deep] => Coll.merge a b deep
+/-! #### slot combinators: required arguments `some`, optional ones as they come; any other shape
+    cannot be produced by an accepted call and is mapped to `err` -/
+
+def un (f : Value → R Value) : Slots → R Value
+  | [some v] => f v
+  | _ => .err
+def un1 (f : Value → Option Value → R Value) : Slots → R Value
+  | [some v, o] => f v o
+  | _ => .err
+def un2 (f : Value → Option Value → Option Value → R Value) : Slots → R Value
+  | [some v, o1, o2] => f v o1 o2
+  | _ => .err
+def un6 (f : Value → Option Value → Option Value → Option Value → Option Value → Option Value →
+    Option Value → R Value) : Slots → R Value
+  | [some v, o1, o2, o3, o4, o5, o6] => f v o1 o2 o3 o4 o5 o6
+  | _ => .err
+def bin (f : Value → Value → R Value) : Slots → R Value
+  | [some a, some b] => f a b
+  | _ => .err
+def bin1 (f : Value → Value → Option Value → R Value) : Slots → R Value
+  | [some a, some b, o] => f a b o
+  | _ => .err
+
+/-- the primitive state / container state a value has (`Value::kind()`). -/
+inductive Tag where
+  | bytes | integer | float | boolean | timestamp | regex | null | array | object
+  deriving DecidableEq, Repr
+
+def tagOf : Value → Tag
+  | .bytes _ => .bytes | .int _ => .integer | .float _ => .float | .bool _ => .boolean
+  | .ts _ => .timestamp | .regex _ => .regex | .null => .null | .arr _ => .array | .obj _ => .object
+
+/-- the type assertions `string`, `int`, …: the value itself or an error -/
+def assertV (t : Tag) (v : Value) : R Value := if tagOf v = t then .ok v else .err
+
+/-- the type predicates `is_string`, … -/
+def isV (t : Tag) (v : Value) : R Value := boolR (decide (tagOf v = t))
+
+def isEmptyV : Value → R Value
+  | .obj m => boolR m.isEmpty
+  | .arr a => boolR a.isEmpty
+  | .bytes b => boolR b.isEmpty
+  | _ => .err
+
+def pushV : Value → Value → R Value
+  | .arr a, x => .ok (.arr (a.append (.cons x .nil)))
   | _, _ => .err
+
+def popV : Value → R Value
+  | .arr a => .ok (.arr (popList a))
+  | _ => .err
+
+def appendV : Value → Value → R Value
+  | .arr a, .arr b => .ok (.arr (a.append b))
+  | _, _ => .err
+
+def stdCharset : Value := .bytes [115, 116, 97, 110, 100, 97, 114, 100]
+
+def encodeBase64V (v : Value) (pad cs : Option Value) : R Value :=
+  match v, pad.getD (.bool true), cs.getD stdCharset with
+  | .bytes b, .bool p, .bytes c => ofOpt (Codec.Base64.encode b p c)
+  | _, _, _ => .err
+
+def decodeBase64V (v : Value) (cs : Option Value) : R Value :=
+  match v, cs.getD stdCharset with
+  | .bytes b, .bytes c =>
+    (match Codec.Base64.decode b c with
+     | .ok r => .ok (.bytes r)
+     | _ => .err)
+  | _, _ => .err
+
+def encodeBase16V : Value → R Value
+  | .bytes b => .ok (.bytes (Codec.Base16.encode b))
+  | _ => .err
+
+def decodeBase16V : Value → R Value
+  | .bytes b => ofOpt (Codec.Base16.decode b)
+  | _ => .err
+
+def encodeJsonV (E : Env) (v : Value) (pretty : Option Value) : R Value :=
+  match pretty.getD (.bool false) with
+  | .bool p => .ok (.bytes (Json.encodeJson E.json p v))
+  | _ => .err
+
+def flattenV (v : Value) (sep except : Option Value) : R Value :=
+  match exceptKeys except with
+  | some ks => ofRes (Conv.Flat.flatten v (sep.getD (.bytes [46])) ks)
+  | none => .err
+
+def unflattenV (v : Value) (sep r : Option Value) : R Value :=
+  ofRes (Conv.Flat.unflatten v (sep.getD (.bytes [46])) (r.getD (.bool true)))
+
+/-- `FunctionExpression::resolve` of each function on already evaluated argument slots. -/
+def model (E : Env) (F : Fn) : Slots → R Value :=
+  match F with
+  | .string => un (assertV .bytes)
+  | .int => un (assertV .integer)
+  | .float => un (assertV .float)
+  | .bool => un (assertV .boolean)
+  | .array => un (assertV .array)
+  | .object => un (assertV .object)
+  | .timestamp => un (assertV .timestamp)
+  | .isString => un (isV .bytes)
+  | .isInteger => un (isV .integer)
+  | .isFloat => un (isV .float)
+  | .isBoolean => un (isV .boolean)
+  | .isNull => un (isV .null)
+  | .isArray => un (isV .array)
+  | .isObject => un (isV .object)
+  | .isTimestamp => un (isV .timestamp)
+  | .isRegex => un (isV .regex)
+  | .isNullish => un fun v => boolR (Coll.isNullish v)
+  | .isEmpty => un isEmptyV
+  | .length => un Coll.length
+  | .strlen => un Str.strlen
+  | .push => bin pushV
+  | .pop => un popV
+  | .append => bin appendV
+  | .toInt => un fun v => ofRes (Conv.Num.toInt v)
+  | .toFloat => un (Round.toFloat E.parseF)
+  | .toBool => un toBool
+  | .toString => un (toStringV E)
+  | .upcase => un (Str.upcaseV E.cm)
+  | .downcase => un (Str.downcaseV E.cm)
+  | .stripWhitespace => un Str.stripWhitespace
+  | .startsWith => bin1 (Str.startsWith E.cm)
+  | .endsWith => bin1 (Str.endsWith E.cm)
+  | .contains => bin1 (Str.contains E.cm)
+  | .truncate => bin1 Str.truncate
+  | .slice => bin1 Coll.slice
+  | .split => bin1 (splitV E)
+  | .join => un1 Str.join
+  | .abs => un fun v => ofRes (Conv.Num.abs v)
+  | .mod => bin fun v m => ofArith (Arith.tryRem v m)
+  | .floor => un1 (Round.roundFn .floor E.pow10)
+  | .ceil => un1 (Round.roundFn .ceil E.pow10)
+  | .round => un1 (Round.roundFn .round E.pow10)
+  | .formatInt => un1 fun v b => ofRes (Conv.formatInt v (b.getD (.int 10)))
+  | .parseInt => un1 fun v b => ofRes (Conv.parseInt v b)
+  | .parseFloat => un (Round.parseFloat E.parseF)
+  | .encodeBase64 => un2 encodeBase64V
+  | .decodeBase64 => un1 decodeBase64V
+  | .encodeBase16 => un encodeBase16V
+  | .decodeBase16 => un decodeBase16V
+  | .encodeJson => un1 (encodeJsonV E)
+  | .keys => un Coll.keys
+  | .values => un Coll.values
+  | .flatten => un2 flattenV
+  | .compact => un6 Coll.compact
+  | .unique => un Coll.unique
+  | .toEntries => un fun v => ofRes (Conv.toEntries v)
+  | .fromEntries => un fun v => ofRes (Conv.fromEntries v)
+  | .unflatten => un2 unflattenV
+  | .merge => bin1 Coll.merge
 
 /-- the argument values are values the argument expressions can evaluate to, slot by slot. -/
 def Admits : ASlots → Slots → Bool
